@@ -205,7 +205,7 @@ def run_instance(job):
         fixed = dict([i for i in lem.instances() if i[0] == label][0][1])
         sources = Sources(mutations)
         registry = Registry(api.CONTRACTS, sources)
-        ex = Explorer(branch_timeout_ms=cfgt["branch_timeout_ms"], max_paths=cfgt["max_paths"])
+        ex = Explorer(branch_timeout_ms=cfgt["branch_timeout_ms"], max_paths=max(cfgt["max_paths"], lem.cfg.get("max_paths", 0)))
         ex.float_mode = lem.cfg.get("float_mode", float_mode)
         sig = inspect.signature(lem.fn)
         region_srcs = [f for f in findings if f.get("lemma") == lemma_name and f.get("module", modname) == modname and f.get("instance", label) == label]
@@ -379,6 +379,8 @@ def run_instance(job):
                     v["detail"] = f"witness found in REAL mode, confirmed natively: {v['detail']}"
                 res["vcs"] = [v for v in res["vcs"] if not (v["status"] == "undecided" and v.get("fp"))] + confirmed
             res["witness_search"] = {"mode": "real", "confirmed": len(confirmed)}
+        if ex.unsupported:
+            res["error"] = f"UNSUPPORTED {ex.unsupported[0]}" + (f" (+{len(ex.unsupported) - 1} more paths)" if len(ex.unsupported) > 1 else "")
         res["paths"] = ex.stats["paths"]
         res["aborted"] = ex.stats["aborted"]
         res["solver_calls"] = ex.stats["solver_calls"]
@@ -554,10 +556,10 @@ def summarize(prop, tier, results, wall, findings, mutations, quiet=False):
         sites[k]["instances"].add(r["instance"])
     code = 0
     lines = []
-    if errors:
+    if errors and not (refuted and all(str(r["error"]).startswith("UNSUPPORTED") for r in errors)):
         code = 3
-        for r in errors:
-            lines.append(f"ERROR {r['lemma']}[{r['instance']}]: {r['error'].splitlines()[0]}")
+    for r in errors:
+        lines.append(f"ERROR {r['lemma']}[{r['instance']}]: {r['error'].splitlines()[0]}")
     if mism and code == 0:
         code = 3
         for r, m in mism[:10]:
